@@ -63,19 +63,30 @@ type c19Tx struct {
 }
 
 type c19Input struct {
-	Genesis    string  `json:"genesis"`
-	Count      int     `json:"count"`   // blocks broadcast
-	Pad        int     `json:"pad"`     // how many of them come from EndPadding
-	CadenceMs  int     `json:"cadence"` // ms
-	Subs       int     `json:"subs"`
-	Native     bool    `json:"native"`
-	MaxDelayMs int     `json:"maxDelay"` // native mode: BlockBroadcaster maxDelay
-	Delays     [][]int `json:"delays"`   // proxy mode: [subscriber][block index] ms
-	Reports    [][]JCR `json:"reports"`
-	Txs        []c19Tx `json:"txs"`
-	Queries    []int64 `json:"queries"` // µs; proxy mode only
-	Attach     []int64 `json:"attach"`  // per subscriber, µs: when it subscribes (0: before Start); proxy mode only
-	Detach     []int64 `json:"detach"`  // per subscriber, µs: when it unsubscribes (0: never); proxy mode only
+	Genesis    string     `json:"genesis"`
+	Count      int        `json:"count"`   // blocks broadcast
+	Pad        int        `json:"pad"`     // how many of them come from EndPadding
+	CadenceMs  int        `json:"cadence"` // ms
+	Subs       int        `json:"subs"`
+	Native     bool       `json:"native"`
+	MaxDelayMs int        `json:"maxDelay"` // native mode: BlockBroadcaster maxDelay
+	Delays     [][]int    `json:"delays"`   // proxy mode: [subscriber][block index] ms
+	Reports    [][]JCR    `json:"reports"`
+	Txs        []c19Tx    `json:"txs"`
+	Queries    []int64    `json:"queries"` // µs; proxy mode only
+	Attach     []int64    `json:"attach"`  // per subscriber, µs: when it subscribes (0: before Start); proxy mode only
+	Detach     []int64    `json:"detach"`  // per subscriber, µs: when it unsubscribes (0: never); proxy mode only
+	Stalls     []c19Stall `json:"stalls"`  // proxy mode only: a node's plugin side stops reading for a while
+}
+
+// c19Stall: from From to To (µs) the consumer of subscriber Sub's block
+// histories and of its second block subscription reads nothing; the listener,
+// the trackers and the prompt observer go on.  Everything must still be
+// delivered, in order, once it reads again.
+type c19Stall struct {
+	Sub  int   `json:"sub"`
+	From int64 `json:"from"`
+	To   int64 `json:"to"`
 }
 
 type c19JTx struct {
@@ -98,6 +109,7 @@ type c19JEv struct {
 }
 type c19JSub struct {
 	Recv   []int      `json:"recv"`  // indices into dict
+	Slow   []int      `json:"slow"`  // the same blocks as seen by the stallable consumer
 	Hists  [][]int64  `json:"hists"` // flat [number-genesis, hash id, …]
 	Events [][]c19JEv `json:"events"`
 	Seen   []int      `json:"seen"` // per query: blocks received when it was made
@@ -249,6 +261,23 @@ func c19Normalise(in *c19Input) {
 			in.Detach[i] = uniq(in.Detach[i])
 		}
 	}
+	stalls := []c19Stall{}
+	stalled := map[int]bool{}
+	if !in.Native {
+		for _, st := range in.Stalls {
+			if st.Sub < 0 || st.Sub >= in.Subs || stalled[st.Sub] || st.From < 1 {
+				continue
+			}
+			stalled[st.Sub] = true
+			st.From = uniq(offGrid(st.From))
+			if st.To <= st.From {
+				st.To = st.From + 1
+			}
+			st.To = uniq(offGrid(st.To))
+			stalls = append(stalls, st)
+		}
+	}
+	in.Stalls = stalls
 	if in.Reports == nil {
 		in.Reports = [][]JCR{}
 	}
@@ -371,7 +400,12 @@ type c19Node struct {
 	hists  []ocr2keepers.BlockHistory
 	events [][]ocr2keepers.TransmitEvent
 	seen   []int
+	slow   []chain.Block
 	fin    chan struct{}
+	finObs chan struct{}
+	pause  chan struct{}
+	resume chan struct{}
+	paused bool
 }
 
 func c19Digest(s string) string {
@@ -437,7 +471,7 @@ func c19Run(t *testing.T, in c19Input) c19Impl {
 	nativeIDs := []int{}
 	// attach builds what hydrator.go builds per node on the shared broadcaster
 	attach := func(s int) {
-		n := &c19Node{fin: make(chan struct{})}
+		n := &c19Node{fin: make(chan struct{}), finObs: make(chan struct{}), pause: make(chan struct{}), resume: make(chan struct{})}
 		if in.Native {
 			n.listener = chain.NewListener(bb, quietLogger)
 			nativeIDs = append(nativeIDs, srcID+1+s)
@@ -453,11 +487,33 @@ func c19Run(t *testing.T, in c19Input) c19Impl {
 			t.Fatalf("tracker.Subscribe: %v", err)
 		}
 		n.histID = id
-		chB := n.listener.Subscribe(chain.BlockChannel)
+		chB := n.listener.Subscribe(chain.BlockChannel)    // read promptly
+		chSlow := n.listener.Subscribe(chain.BlockChannel) // read by the stallable consumer, like the histories
+		go func() {
+			defer close(n.finObs)
+			for {
+				select {
+				case e := <-chB:
+					if b, ok := e.Event.(chain.Block); ok {
+						n.mu.Lock()
+						n.recv = append(n.recv, b)
+						n.mu.Unlock()
+					}
+				case <-stopCollect:
+					return
+				}
+			}
+		}()
 		go func() {
 			defer close(n.fin)
 			for {
 				select {
+				case <-n.pause: // the plugin side of the node stops reading
+					select {
+					case <-n.resume:
+					case <-stopCollect:
+						return
+					}
 				case h, ok := <-chH:
 					if !ok {
 						chH = nil
@@ -466,10 +522,10 @@ func c19Run(t *testing.T, in c19Input) c19Impl {
 					n.mu.Lock()
 					n.hists = append(n.hists, append(ocr2keepers.BlockHistory(nil), h...))
 					n.mu.Unlock()
-				case e := <-chB:
+				case e := <-chSlow:
 					if b, ok := e.Event.(chain.Block); ok {
 						n.mu.Lock()
-						n.recv = append(n.recv, b)
+						n.slow = append(n.slow, b)
 						n.mu.Unlock()
 					}
 				case <-stopCollect:
@@ -511,21 +567,27 @@ func c19Run(t *testing.T, in c19Input) c19Impl {
 		query  bool
 		attach int // subscriber to attach, or -1
 		detach int // subscriber to detach, or -1
+		pause  int // subscriber whose consumer stops reading, or -1
+		resume int // … reads again, or -1
 	}
 	ops := []op{}
+	for _, st := range in.Stalls {
+		ops = append(ops, op{at: st.From, tx: -1, attach: -1, detach: -1, pause: st.Sub, resume: -1},
+			op{at: st.To, tx: -1, attach: -1, detach: -1, pause: -1, resume: st.Sub})
+	}
 	for s := range nodes {
 		if in.Attach[s] > 0 {
-			ops = append(ops, op{at: in.Attach[s], tx: -1, attach: s, detach: -1})
+			ops = append(ops, op{at: in.Attach[s], tx: -1, attach: s, detach: -1, pause: -1, resume: -1})
 		}
 		if in.Detach[s] > 0 {
-			ops = append(ops, op{at: in.Detach[s], tx: -1, attach: -1, detach: s})
+			ops = append(ops, op{at: in.Detach[s], tx: -1, attach: -1, detach: s, pause: -1, resume: -1})
 		}
 	}
 	for i, x := range in.Txs {
-		ops = append(ops, op{at: x.At, tx: i, attach: -1, detach: -1})
+		ops = append(ops, op{at: x.At, tx: i, attach: -1, detach: -1, pause: -1, resume: -1})
 	}
 	for _, q := range in.Queries {
-		ops = append(ops, op{at: q, tx: -1, query: true, attach: -1, detach: -1})
+		ops = append(ops, op{at: q, tx: -1, query: true, attach: -1, detach: -1, pause: -1, resume: -1})
 	}
 	sort.SliceStable(ops, func(i, j int) bool { return ops[i].at < ops[j].at })
 
@@ -559,6 +621,21 @@ func c19Run(t *testing.T, in c19Input) c19Impl {
 		}
 		if o.attach >= 0 {
 			attach(o.attach) // a node joining while the chain runs
+			continue
+		}
+		if o.pause >= 0 {
+			if n := nodes[o.pause]; n != nil && !n.paused {
+				n.pause <- struct{}{}
+				n.paused = true
+			}
+			continue
+		}
+		if o.resume >= 0 {
+			if n := nodes[o.resume]; n != nil && n.paused {
+				n.resume <- struct{}{}
+				n.paused = false
+				synctest.Wait() // the backlog is drained
+			}
 			continue
 		}
 		if o.detach >= 0 {
@@ -602,6 +679,7 @@ func c19Run(t *testing.T, in c19Input) c19Impl {
 	close(stopCollect)
 	for _, n := range nodes {
 		<-n.fin
+		<-n.finObs
 	}
 	leak := []string{}
 	for _, n := range nodes {
@@ -700,6 +778,10 @@ func c19Run(t *testing.T, in c19Input) c19Impl {
 		js := c19JSub{Recv: []int{}, Hists: [][]int64{}, Events: [][]c19JEv{}, Seen: append([]int{}, n.seen...)}
 		for _, b := range n.recv {
 			js.Recv = append(js.Recv, blockIdx(b))
+		}
+		js.Slow = []int{}
+		for _, b := range n.slow {
+			js.Slow = append(js.Slow, blockIdx(b))
 		}
 		for _, h := range n.hists {
 			flat := make([]int64, 0, 2*len(h))
@@ -927,10 +1009,68 @@ func c19Gen(r *Rng, em *Emitter) c19Input {
 			in.Txs = append(in.Txs, x)
 			em.Hit(fmt.Sprintf("tx-concurrency=%d", len(x.Nodes)))
 		}
+		if r.Chance(35) {
+			// the network moves on round by round (1, 2, 3, …, one or a few nodes submitting each
+			// round's report in time) while stragglers re-submit the report of an EARLIER round,
+			// 0 … 55 rounds behind the newest one
+			nprog := r.Range(18, 70)
+			ats := make([]int64, nprog)
+			for i := range ats {
+				ats[i] = 1 + int64(r.U64()%uint64(span))
+			}
+			sort.Slice(ats, func(i, j int) bool { return ats[i] < ats[j] })
+			base := uint64(r.Range(1, 5))
+			prog := make([]c19Tx, nprog)
+			for i := range prog {
+				x := c19Tx{At: ats[i], Rep: r.Intn(nrep), Round: base + uint64(i)}
+				for n := r.Range(1, 3); n > 0; n-- {
+					x.Nodes = append(x.Nodes, r.Intn(8))
+				}
+				prog[i] = x
+			}
+			in.Txs = append(in.Txs, prog...)
+			for n := r.Range(1, 6); n > 0; n-- {
+				i := r.Intn(nprog)
+				lag := []int{0, 1, 2, 15, 16, 17, 18, 25, 40, 55}[r.Intn(10)]
+				if lag > i {
+					lag = i
+				}
+				late := c19Tx{At: prog[i].At + int64(r.Range(1, 900)), Rep: prog[i-lag].Rep, Round: prog[i-lag].Round}
+				for k := r.Range(1, 2); k > 0; k-- {
+					late.Nodes = append(late.Nodes, r.Intn(8))
+				}
+				in.Txs = append(in.Txs, late)
+				em.Hit(fmt.Sprintf("straggler-lag=%d", bucket(lag)))
+			}
+			em.Hit("round-progression")
+		}
 		if !in.Native {
 			for n := r.Range(0, 4); n > 0; n-- {
 				in.Queries = append(in.Queries, 1+int64(r.U64()%uint64(span*2)))
 			}
+		}
+	}
+	// a node whose plugin side stops reading for a while: the listener's subscribers fall behind,
+	// by more than their 100-slot buffers when the chain is long enough
+	if !in.Native && r.Chance(60) {
+		c := int64(in.CadenceMs) * 1000
+		length := []int{100, 101, 102, 130, 210, in.Count}[r.Intn(6)]
+		if in.Count <= 100 {
+			length = r.Range(1, in.Count)
+		}
+		if length > in.Count {
+			length = in.Count
+		}
+		first := r.Intn(in.Count - length + 1)
+		// blocks first … first+length-1 are broadcast inside (From, To)
+		from := int64(first)*c - c/2
+		if from < 1 {
+			from = 137
+		}
+		in.Stalls = append(in.Stalls, c19Stall{Sub: r.Intn(in.Subs), From: from, To: int64(first+length)*c - c/2})
+		em.Hit(fmt.Sprintf("stall-blocks=%d", bucket(length)))
+		if length > 100 {
+			em.Hit("stall-blocks>100")
 		}
 	}
 	c19Normalise(&in)
@@ -998,6 +1138,21 @@ func c19Edge() []c19Input {
 			Attach: []int64{0, 25137, 0, 400137}, Detach: []int64{0, 95137, 155137, 0}, Reports: [][]JCR{rep(1)},
 			Txs: []c19Tx{{At: 45137, Rep: 0, Round: 1, Nodes: []int{0, 1}}}, Queries: []int64{70137, 120137}},
 	)
+	// a consumer that does not read for 150 blocks (its 100-slot subscription overflows) and, on a
+	// long chain, for 230 blocks (the history tracker itself is held up and falls behind its own subscription)
+	out = append(out,
+		c19Input{Genesis: "900", Count: 160, CadenceMs: 10, Subs: 2, Delays: zero(2, 160), Stalls: []c19Stall{{Sub: 0, From: 20137, To: 1520137}}},
+		c19Input{Genesis: "9990", Count: 260, CadenceMs: 10, Subs: 1, Delays: zero(1, 260), Stalls: []c19Stall{{Sub: 0, From: 100137, To: 2400137}}},
+	)
+	// 40 rounds, one report per round and block; node 7 re-submits old rounds 0, 16, 17 and 39 rounds late
+	lateIn := c19Input{Genesis: "60", Count: 45, CadenceMs: 10, Subs: 1, Delays: zero(1, 45), Reports: [][]JCR{rep(1), rep(2)}}
+	for i := 0; i < 40; i++ {
+		lateIn.Txs = append(lateIn.Txs, c19Tx{At: int64(i)*10000 + 5137, Rep: i % 2, Round: uint64(i + 1), Nodes: []int{i % 4, (i + 1) % 4}})
+	}
+	lateIn.Txs = append(lateIn.Txs,
+		c19Tx{At: 395237, Rep: 1, Round: 40, Nodes: []int{7}}, c19Tx{At: 395337, Rep: 1, Round: 24, Nodes: []int{7}},
+		c19Tx{At: 395437, Rep: 0, Round: 23, Nodes: []int{7}}, c19Tx{At: 395537, Rep: 0, Round: 1, Nodes: []int{7, 6}})
+	out = append(out, lateIn)
 	for i := range out {
 		c19Normalise(&out[i])
 	}
